@@ -14,7 +14,10 @@ def main():
     out = []
     for job in jobs:
         mod = importlib.import_module(job["mod"])
-        fn = getattr(mod, job["fn"])
+        fn = getattr(mod, job["fn"], None)
+        if fn is None:
+            from ovf import workloads
+            fn = getattr(workloads, job["fn"])
         try:
             r = fn(job)
         except Exception:
